@@ -131,6 +131,7 @@ class Explorer:
         self.trace = []           # ghost event trace (effects, draws)
         self.path_id = len(self.paths)
         self.notes = []
+        self.memo = {}            # per-path caches of contract instances (e.g. numpy.repeat position maps)
 
     def fresh_name(self, base):
         return "%s!%d" % (base, next(self.fresh_ctr))
@@ -221,10 +222,17 @@ class Explorer:
     def prove(self, name, goal, kind="post", timeout_ms=None, expect="proved", info=None):
         if isinstance(goal, SymBool):
             goal = goal.t
+        literal_false = goal is False
         if isinstance(goal, bool):
             goal = z3.BoolVal(goal)
-        status, solver, dt, extra = solve(self.assumptions, goal, timeout_ms or self.timeout_ms,
-                                          use_cvc5=(expect == "proved"))
+        if literal_false:
+            # a python-level check failed: only an infeasible path could still discharge it -- short budget, z3 only
+            status, solver, dt, extra = solve(self.assumptions, goal, min(2000, timeout_ms or self.timeout_ms), use_cvc5=False)
+            if status != "proved":
+                status, extra = "refuted", "python-level condition is False on this path"
+        else:
+            status, solver, dt, extra = solve(self.assumptions, goal, timeout_ms or self.timeout_ms,
+                                              use_cvc5=(expect == "proved"))
         self.solver_s += dt
         if expect == "fail" and status == "proved":
             # a discharged canary is only meaningful on a feasible path: if the path condition itself is
@@ -300,6 +308,8 @@ def _t(x):
         return z3.RealVal(_float_as_rational(x))
     if z3.is_expr(x):
         return x
+    if hasattr(x, "_vc_term"):
+        return x._vc_term
     try:
         import numpy
         if isinstance(x, numpy.bool_):
